@@ -33,6 +33,7 @@ func cmdLife1(args []string) error {
 	kind := fs.String("kind", "Rpc", "call kind")
 	out := fs.String("out", "", "output (ndjson)")
 	quiet := fs.Int("quiet", 1500, "quiescence period in ms")
+	allout := fs.String("allout", "", "second output with every recorded event (for the transport-level validation)")
 	fs.Parse(args)
 	drive.QuietT = time.Duration(*quiet) * time.Millisecond
 	var sc *drive.LifeScenario
@@ -57,6 +58,19 @@ func cmdLife1(args []string) error {
 		hdr["infeasible"] = err.Error()
 	}
 	w.WriteRaw(hdr)
+	if *allout != "" {
+		aw, aerr := vtrace.NewWriter(*allout)
+		if aerr != nil {
+			return aerr
+		}
+		aw.WriteRaw(hdr)
+		for _, e := range events {
+			aw.Write(0, e)
+		}
+		if aerr := aw.Close(); aerr != nil {
+			return aerr
+		}
+	}
 	alphabet := lifeAlphabet
 	if *prop == "C03" {
 		alphabet = lifeFifoAlphabet
@@ -85,6 +99,7 @@ func cmdLife(args []string) error {
 	par := fs.Int("par", 6, "scenarios run in parallel")
 	only := fs.String("only", "", "run only this scenario:kind")
 	reps := fs.Int("reps", 1, "repetitions of every scenario")
+	allout := fs.String("allout", "", "second output with every recorded event")
 	fs.Parse(args)
 	type job struct {
 		name, kind string
@@ -107,6 +122,7 @@ func cmdLife(args []string) error {
 	}
 	self, _ := os.Executable()
 	results := make([][]byte, len(jobs))
+	allres := make([][]byte, len(jobs))
 	fails := make([]string, len(jobs))
 	var wg sync.WaitGroup
 	sem := make(chan struct{}, *par)
@@ -118,7 +134,11 @@ func cmdLife(args []string) error {
 			defer wg.Done()
 			defer func() { <-sem }()
 			tmp := fmt.Sprintf("%s.%d.part", *out, j.idx)
-			cmd := exec.Command("timeout", "120", self, "life1", "-prop", *prop, "-scen", j.name, "-kind", j.kind, "-out", tmp, "-quiet", fmt.Sprint(*quiet))
+			argv := []string{"120", self, "life1", "-prop", *prop, "-scen", j.name, "-kind", j.kind, "-out", tmp, "-quiet", fmt.Sprint(*quiet)}
+			if *allout != "" {
+				argv = append(argv, "-allout", tmp+".all")
+			}
+			cmd := exec.Command("timeout", argv...)
 			var ob bytes.Buffer
 			cmd.Stdout, cmd.Stderr = &ob, &ob
 			if err := cmd.Run(); err != nil {
@@ -127,6 +147,11 @@ func cmdLife(args []string) error {
 			b, _ := os.ReadFile(tmp)
 			os.Remove(tmp)
 			results[j.idx] = b
+			if *allout != "" {
+				ab, _ := os.ReadFile(tmp + ".all")
+				os.Remove(tmp + ".all")
+				allres[j.idx] = ab
+			}
 		}(j)
 	}
 	wg.Wait()
@@ -161,6 +186,27 @@ func cmdLife(args []string) error {
 	}
 	w.Flush()
 	f.Close()
+	if *allout != "" {
+		af, err := os.Create(*allout)
+		if err != nil {
+			return err
+		}
+		aw := bufio.NewWriter(af)
+		for i, b := range allres {
+			for _, line := range bytes.Split(bytes.TrimSpace(b), []byte("\n")) {
+				var m map[string]interface{}
+				if json.Unmarshal(line, &m) != nil {
+					continue
+				}
+				m["t"] = i
+				rec, _ := json.Marshal(m)
+				aw.Write(rec)
+				aw.WriteByte('\n')
+			}
+		}
+		aw.Flush()
+		af.Close()
+	}
 	st := map[string]interface{}{"scenarios": len(jobs), "events": nev, "wall_s": time.Since(start).Seconds()}
 	b, _ := json.MarshalIndent(st, "", " ")
 	if *stats != "" {
